@@ -372,7 +372,7 @@ func run(c Case) vt.Verdict {
 func TestProp(t *testing.T) {
 	vt.Main(t, vt.Spec[Case]{
 		ID:           "C12",
-		Rule:         "crash-point generation: a manager with send buffer 0/1/4/16, with/without WithBlock, nodes down at creation, nodes whose handlers are held (with or without Release, so that requests are awaiting replies or stuck behind a non-reading server, optionally with a flood being written); 0-10 calls of all kinds with contexts that never end (a third of the correctable callers wait in Watch alone, for a level that is never reached), issued by 1-4 threads before and concurrently with Close, some abandoned during their send (stream reset before Close), optionally a server crash and restart before Close, in a quarter of the cases a transient fault (an injected failure of a single stream write, or a cut of the connections to a server that keeps listening), optionally an AddNode with an id that is registered already (refused), optionally the servers that were down at creation coming up just before or right after Close (a late dial succeeds), in half of the cases seeded jitter at the statement-level yield points of the instrumented runtime; Close struck after a generated delay from 1-3 goroutines; then 0-8 calls after Close returned and optionally Close again; plus WithNoConnect managers that are only created and closed. Oracle: Close returns and never panics, every call returns within the hang bound after Close although all handlers stay held, post-Close two-way calls do not succeed, no call panics, and within the bound no sender/receiver/watcher/async/correctable goroutine and no grpc client-transport goroutine created since the manager was built remains; non-trivial (measured) = Close struck with a call in flight or being issued, or send buffer > 0, or a node never connected",
+		Rule:         "crash-point generation: a manager with send buffer 0/1/4/16, with/without WithBlock, nodes down at creation, nodes whose handlers are held (with or without Release, so that requests are awaiting replies or stuck behind a non-reading server, optionally with a flood being written); 0-10 calls of all kinds with contexts that never end (a third of the correctable callers wait in Watch alone, for a level that is never reached), issued by 1-4 threads before and concurrently with Close, some abandoned during their send (stream reset before Close), optionally a server crash and restart before Close, in a quarter of the cases a transient fault (an injected failure of a single stream write, or a cut of the connections to a server that keeps listening), optionally an AddNode with an id that is registered already (refused), optionally the servers that were down at creation coming up just before or right after Close (a late dial succeeds), in half of the cases seeded jitter at the statement-level yield points of the instrumented runtime; Close struck after a generated delay from 1-3 goroutines; then 0-8 calls after Close returned and optionally Close again; plus WithNoConnect managers that are only created and closed. Oracle: Close returns and never panics, every call returns within the hang bound after Close although all handlers stay held, post-Close two-way calls do not succeed, no call panics, and within the bound no sender/receiver/watcher/async/correctable goroutine and no grpc client-transport goroutine created since the manager was built remains; non-trivial (measured) = Close struck with a call in flight or being issued, or send buffer > 0, or a node never connected; a quarter of the programs add a server-stream correctable with 3-9 (or endless) replies per node and a quorum function that takes 1-20 ms per reply, awaited in Get/Done or Watch (its reply channel is full when Close strikes)",
 		Gen:          gen,
 		Run:          run,
 		TrackCurrent: true,
